@@ -141,12 +141,12 @@ void SolveLSE(matrix *mx, dvector *solution)
 
   while(l > -1){
     double b = 0.f;
-    for(i = 0; i < (*X).col-1; i++){
-      if(i != l){
-        b += X->data[l][i] * solution->data[i];
-      }
-      else
-        continue;
+    /* back substitution: only the unknowns already solved (those after l) enter;
+     * the entries before l are elimination residue and the corresponding
+     * solution values are not computed yet
+     */
+    for(i = l+1; i < (*X).col-1; i++){
+      b += X->data[l][i] * solution->data[i];
     }
 
     if(X->data[l][l] == 0.f)
